@@ -54,7 +54,16 @@ func c14WatcherAdd(w *fsnotify.Watcher, name string) error {
 }
 
 //verif:replace github.com/fsnotify/fsnotify.NewWatcher
-func c14NewWatcher() (*fsnotify.Watcher, error) { return &fsnotify.Watcher{}, nil }
+func c14NewWatcher() (*fsnotify.Watcher, error) {
+	return &fsnotify.Watcher{Events: make(chan fsnotify.Event), Errors: make(chan error)}, nil
+}
+
+//verif:replace (*github.com/fsnotify/fsnotify.Watcher).Close
+func c14WatcherClose(w *fsnotify.Watcher) error {
+	close(w.Events)
+	close(w.Errors)
+	return nil
+}
 
 func c14Reset() {
 	c14.loads, c14.adds, c14.order, c14.nextMarker, c14.loadFails, c14.addFails = 0, nil, nil, 0, false, false
